@@ -19,6 +19,20 @@ claimed = {
    note=TB + " Pigeonhole step (n distinct indices in [0,n) are a permutation) is argued, not queried."),
 }
 
+STEP_TECH = "symbolic execution of go/ssa (one inductive step from an arbitrary invariant state) + SMT (z3/cvc5 bit-vectors), native replay of counterexamples"
+STEP_NOTE = TB + (" The pre-state ranges over every state satisfying the representation invariant Inv (DESIGN §5), whose preservation by every API call is itself "
+  "discharged (obligation INV); bounds (N=4 quick, sizes of transaction lists/recovery messages) are in the evidence file; application callbacks are arbitrary deterministic functions.")
+def step(text, ref):
+    return dict(category="model_checking", text=text, design_ref=ref, technique=STEP_TECH, note=STEP_NOTE)
+claimed.update({
+ "C02": step("Bounded symbolic model checking of the real OnReceive/OnTimeout/OnTransaction: from EVERY Inv state (N=4, symbolic height/view/tables/flags/callback results, Byzantine payload contents) one call is executed on all feasible paths and at each ProcessBlock/ProcessPreBlock callback the solver proves the decision certificate (>= M current-view commits/pre-commits verifying against exactly that block; block = tip+1 with the proposal's content in order). unsat = holds for all values within the bounds; the one known exception (KF-1) is carved out by an explicit predicate and printed as KNOWN-FINDING.", "DESIGN.md §6 C02"),
+ "C03": step("Same one-step symbolic execution; obligations at every Broadcast callback and on the post-state: own slot holds exactly the payload sent, retransmitted (pre)commit is the stored object (also inside recovery messages), no ChangeView and no view/height change once an own commit/pre-commit is stored, view monotone, every sent payload carries the node's height/view/index. Inductive over histories of any length because the pre-state is any Inv state.", "DESIGN.md §6 C03"),
+ "C04": step("Same one-step symbolic execution; at every PrepareResponse broadcast: proposal stored, sent by GetPrimaryIndex(view), all transactions held, the verification callback accepted exactly this block in this call, response names the proposal hash; at the first Commit/PreCommit broadcast: >= M current-view preparations naming the proposal; a higher view is entered only with >= M stored change-view requests for it or above.", "DESIGN.md §6 C04"),
+ "C07": step("Same one-step symbolic execution with the anti-MEV enabling height a solver variable (below/at/above the node's height): Commit broadcast only with own PreCommit stored, >= M current-view PreCommits and preBlockProcessed; ProcessPreBlock at most once per height and only at enabled heights; NewBlockFromContext/Sign only after the pre-block; no PreCommit/SetData/ProcessPreBlock at disabled heights.", "DESIGN.md §6 C07"),
+ "C10": step("Same one-step symbolic execution with a model of the injected Timer: after every API call from any Inv state an undecided, non-watch-only node has its timer armed for exactly (BlockIndex, ViewNumber); every Timer.Reset is for the epoch current at that instant with a non-negative duration (views <= 21, TimePerBlock <= 2^40 ns).", "DESIGN.md §6 C10"),
+ "C13": step("Same one-step symbolic execution with the node watch-only through either cause (index -1, or flag set at a primary/backup index): any Broadcast, Block.Sign or PreBlock.SetData callback on any feasible path is a violation; Inv keeps the own slots empty.", "DESIGN.md §6 C13"),
+})
+
 na = {
 }
 
